@@ -23,8 +23,9 @@ fn plan(prop: &str, o: &mut Out) {
             g_spellings(o, &all, c);
             let c = o.q(100, 3000);
             g_long(o, c);
-            let c = o.q(40, 200);
+            let c = o.q(70, 200);
             g_big_edges(o, c);
+            g_exp_texts(o, &["dyn", "big", "b64"]);
         }
         "C02" | "C03" => {
             let op = if prop == "C02" { "format" } else { "roundtrip" };
@@ -32,6 +33,8 @@ fn plan(prop: &str, o: &mut Out) {
             g_on_patterns(o, op, &pats, &[]);
             let lb = last_byte_patterns(o);
             g_on_patterns(o, op, &lb, &[]);
+            let wide = wide_big_patterns(o);
+            g_on_patterns(o, op, &wide, &[]);
             if prop == "C03" {
                 let c = o.q(3000, 100000);
                 g_numerals(o, "parse_str", &all, c);
@@ -44,6 +47,7 @@ fn plan(prop: &str, o: &mut Out) {
             g_long_valid(o, &all);
             g_grid(o, &all);
             g_exp_limits(o);
+            g_exp_texts(o, &all);
             let c = o.q(3000, 100000);
             g_numerals(o, "parse_str", &all, c);
             let c = o.q(100, 2000);
@@ -93,8 +97,10 @@ fn plan(prop: &str, o: &mut Out) {
             g_targeted_invalid(o);
             g_nonascii_chars(o, &["b32", "dyn", "big"]);
             g_long_valid(o, &all);
+            g_swallow_invalid(o, &all);
         }
         "C07" => {
+            g_exp_texts(o, &["dyn", "big"]);
             g_grid(o, &["dyn", "big"]);
             let c = o.q(80, 200);
             g_big_edges(o, c);
@@ -107,6 +113,10 @@ fn plan(prop: &str, o: &mut Out) {
             g_on_patterns(o, "classify", &pats, &[]);
             g_on_patterns(o, "to_float", &pats, &["f64"]);
             g_on_patterns(o, "to_int", &pats, &["i32"]);
+            // the conversions' branch must follow the class for every payload too (the payload becomes float bits)
+            let np = nan_payload_patterns(o);
+            g_on_patterns(o, "classify", &np, &[]);
+            g_on_patterns(o, "to_float", &np, &["f32", "f64"]);
             let c = o.q(2000, 100000);
             let mut more = vec![];
             for n in [1usize, 2, 4, 5, 7] {
@@ -129,6 +139,7 @@ fn plan(prop: &str, o: &mut Out) {
             for n in [2usize, 4, 5] {
                 pats.extend(top_halfword_patterns(o, n, if o.thorough { 7 } else { 257 }));
             }
+            pats.extend(wide_big_patterns(o));
             g_on_patterns(o, "to_int", &pats, &ints);
         }
         "C12" => g_from_float(o, &all),
@@ -141,6 +152,8 @@ fn plan(prop: &str, o: &mut Out) {
                 pats.extend(layout_patterns(o, n));
                 pats.extend(top_halfword_patterns(o, n, if o.thorough { 17 } else { 509 }));
             }
+            pats.extend(wide_big_patterns(o));
+            pats.extend(nan_payload_patterns(o));
             g_on_patterns(o, "to_float", &pats, &["f32", "f64"]);
         }
         "C14" => {
@@ -201,6 +214,10 @@ fn plan(prop: &str, o: &mut Out) {
                     if n <= 12 {
                         for e in [f.qmin(), f.qmax()] {
                             o.put(&format!("oversize-exp/{}", ty), format!("parse_str {} {}", ty, ops::hex(format!("1e{}", e).as_bytes())));
+                            // too many digits *and* an exponent that needs an even wider format than the digits do
+                            for d in [Fmt { n: cap + 1 }.p(), Fmt { n: cap + 2 }.p() - 3] {
+                                o.put(&format!("oversize-both/{}", ty), format!("parse_str {} {}", ty, ops::hex(format!("{}e{}", "4".repeat(d), e).as_bytes())));
+                            }
                         }
                     }
                 }
